@@ -578,6 +578,8 @@ pub fn block_edge_docs(max: usize) -> Vec<Vec<u8>> {
             out.push(format!("[{f},7]").into_bytes());
             out.push(format!("{{\"o\":{{\"k\":{f}}},\"t\":[{f},7]}}").into_bytes());
             out.push(format!("[[{f}],{{\"t\":7}}]").into_bytes());
+            // a long tail behind the filler: the block after the special byte is a full SIMD block
+            out.push(format!("{{\"k\":{f},\"t\":7,\"tail\":\"{}\"}}", "y".repeat(70)).into_bytes());
         }
     }
     out
